@@ -34,7 +34,10 @@ rows=[]
 for d in sorted(os.listdir('/verif/seeded')):
     try: m=json.load(open('/verif/seeded/%s/meta.json'%d))
     except Exception: continue
-    rows.append((d,m.get('property','?'),(m.get('what','') or '')[:220].replace('\n',' ').replace('|','/'),(m.get('needs','') or '')[:170].replace('\n',' ').replace('|','/')," ".join(m.get('checks_run',[]))))
+    hist=" ".join(m.get('checks_run') or [])
+    if m.get('first_run'): hist="first run: "+" ".join(m['first_run'])+"; after strengthening ("+(m.get('strengthened_by') or '')[:160].replace('|','/')+"): "+hist
+    elif m.get('strengthened_by'): hist=hist+" (after: "+m['strengthened_by'][:160].replace('|','/')+")"
+    rows.append((d,m.get('property','?'),(m.get('what','') or '')[:220].replace('\n',' ').replace('|','/'),(m.get('needs','') or '')[:170].replace('\n',' ').replace('|','/'),hist))
 t=["| seeded change | property | what it changes | needs | checks run (exit / violations) |","|---|---|---|---|---|"]
 for r in rows: t.append("| `%s` | %s | %s | %s | %s |"%r)
 i=s.index('| seeded change | property | what it changes | needs | checks run (exit / violations) |'); j=s.index('\n\n',i)
